@@ -40,6 +40,7 @@ Forms == <<
     <<"ON", "ERROR", "RESUME", "NEXT">>,
     <<"DIM", "q", "(", "1", "TO", "n%", ",", "2", ")", "AS", "LONG">>,
     <<"DIM", "SHARED", "z", "AS", "rt">>,
+    <<"DIM", "q1", "(", "32000", ")", NL, "DIM", "q2", "(", "32000", ")", NL, "DIM", "q3", "(", "5000", ")">>,
     <<"CONST", "k", "=", "1", "+", "2">>,
     <<"LOCATE", "1", ",", "2">>,
     <<"COLOR", "1", ",", "2">>,
